@@ -18,6 +18,7 @@ import GraphiqModel.Proofs.Noise
 import GraphiqModel.Proofs.Channel
 import GraphiqModel.Proofs.GateTable
 import GraphiqModel.Proofs.MixtureDMLockstep
+import GraphiqModel.Proofs.MixtureDMTotal
 namespace Graphiq.C06
 open Graphiq Graphiq.Noise Graphiq.DM
 
@@ -210,6 +211,25 @@ example :
       | .ok { ρ := some ρ, .. }, .ok s =>
           ρ.trace == (⟨3/4, 0⟩ : GQ) && s.mix.length == 4 && Mat.beq ρ (mixtureDensity 2 s.mix)
       | _, _ => false) = true := by decide +kernel
+
+/-! ### (c) is not vacuous anywhere on its class: both compilers return -/
+
+/-- **both compilers return on the whole class**: measurement-free operations on existing qubits whose class the stabilizer
+    compiler accepts, additive noise with depolarizing probabilities in `[0,1]` and valid Pauli names — no `assert`, no shape
+    mismatch, no `np.isclose` failure, no empty mixture; and the results agree.  Every circuit of the class, every n. -/
+theorem dm_equals_mixture_on_the_whole_class (ns : Bool) (ne np nc : Nat) (det : Bool) (ops : List COp)
+    (hw : ∀ op ∈ ops, OpRuns (ne + np) np op) :
+    ∃ s d ρ, compileStab ns ne np nc det ops = .ok s ∧ compileDM ns ne np nc det ops = .ok d ∧ d.ρ = some ρ ∧
+      Mat.EqOn ρ (mixtureDensity (ne + np) s.mix) := dm_equals_mixture_total ns ne np nc det ops hw
+
+example : ∀ op ∈ exCircuit, OpRuns (1 + 1) 1 op := by
+  intro op h
+  simp only [exCircuit, List.mem_cons, List.not_mem_nil, or_false] at h
+  rcases h with rfl | rfl
+  · exact ⟨⟨⟨by decide, fun h => by simp [Kind.isCtrlPair, Kind.isClassicalCtrl] at h, fun h => by simp [Kind.isCtrlPair] at h⟩,
+      Or.inl rfl, ⟨by norm_num, by norm_num⟩, trivial⟩, by simp, rfl, fun _ => rfl, trivial, fun _ => trivial⟩
+  · exact ⟨⟨⟨by decide, fun _ => by decide, fun _ => by decide⟩, Or.inr rfl, trivial, trivial⟩, by simp, rfl, fun _ => rfl,
+      trivial, fun _ => trivial⟩
 
 /-! ### consequences of (c): the density matrix is physical, and both backends give the same fidelities -/
 
